@@ -215,3 +215,28 @@ def run(F, S, R, tier):
     R.guard("startup", startup)
     import common as _common
     _common.effects(R, F, ['verdicts'])
+
+
+    # the import pipeline of the chain service: once a block is past the genesis-number test and its non-contextual checks, it is stored and
+    # routed - whatever else is known about it. A fast path that answers "already handled" in front of that (round-3 seed C08-seed6: "an orphan
+    # that is in the store is already in the orphan pool", which a restart falsifies) leaves a stored block that nothing will ever verify.
+    def pipeline():
+        import atoms as A
+        ap = F.need("ckb_chain::chain_service::ChainService::asynchronous_process_block")
+        R.fn(ap)
+        bodies = [ap] + list(ap.nested())
+        for pat, name, extra in ((r"ChainService::insert_block$", "insert_block", 0), (r"OrphanBroker::process_lonely_block$", "process_lonely_block", 1)):
+            bs = A.bypass_of(bodies, S, pat)
+            R.sites += len(bs)
+            if not bs:
+                R.bad("order/import-pipeline/%s/anchor-lost" % name, "%s is not called as a step of asynchronous_process_block" % name, [ap.where()])
+                continue
+            for nm, tests in bs:
+                known = [t for t in tests if re.search(r"BlockView::number|LonelyBlock::switch|ChainService::(non_contextual_verify|insert_block)", t)]
+                other = [t for t in tests if t not in known]
+                if other:
+                    R.bad("order/import-pipeline/" + name, "%s can be skipped after test(s) that were not reviewed: %s (reviewed: the genesis-number test, the verification switch and the result of the step before)" % (name, [t[:140] for t in other]), [ap.where()])
+                else:
+                    R.ok("order/import-pipeline/" + name, "%s is skipped only for number < 1, by the switch, or when the step before failed" % name, [ap.where()])
+    import re
+    R.guard("order/import-pipeline", pipeline)
